@@ -20,7 +20,7 @@ def _nested():
     return [([p >= 1, s < e], xi == x2i)]
 
 
-CONTRACTS = [C08.LevelToNumPoints(), C08.GetPointsAndWeights(), C08.SetCurrentArea()]
-LEMMAS = [COMBI_IE, L.SmtLemma("trapezoidal-points-nested-in-level", _nested)]
+CONTRACTS = [C08.LevelToNumPoints(), C08.GetPointsAndWeights(), C08.SetCurrentArea(), C08.WeightCompositeTrapezoidal(), C08.Get1dWeight()]
+LEMMAS = [COMBI_IE, L.SmtLemma("trapezoidal-points-nested-in-level", _nested)] + list(C08.LEMMAS)
 ASSUMPTIONS = C08.ASSUMPTIONS + ["exactness on the hierarchical hat space between grid points and for integration is not formalised (Griebel/Schneider/Zenger 1992): layer B",
                                  "scipy.interpolate.interpn(method='linear') is multilinear interpolation (external)"]
